@@ -101,6 +101,9 @@ COMPOSITES = {
 REIMPLEMENTABLE = {"MulAdd::mul_add", "MulAddAssign::mul_add_assign"}
 
 
+OBSERVERS = {"eq", "ne", "is_zero", "const_is_zero", "cmp", "partial_cmp", "lt", "le", "gt", "ge", "bit", "bit_len"}
+
+
 def norm_op(n):
     if n.startswith("wrapping_"):
         n = n[len("wrapping_"):]
@@ -164,6 +167,7 @@ class Slice:
         self.ops = set()
         self.consts = set()
         self.lits = set()
+        self.index_locals = set()   # locals used as array / slice indices on the way
         self._seen = set()
 
     def operand(self, op):
@@ -194,7 +198,22 @@ class Slice:
             self.local(op["l"])
             for e in op["p"]:
                 if isinstance(e, list) and e[0] == "idx":
+                    self.index_locals.add(self._canon_local(e[1]))
                     self.local(e[1])
+
+    def _canon_local(self, l, depth=8):
+        """The variable a temporary is a plain copy of (index temporaries are re-copied before every use)."""
+        while depth > 0:
+            depth -= 1
+            d = self.v.single_def(l)
+            if d is None or d[1] == "term":
+                return l
+            rv = d[2]["rv"]
+            if rv["r"] == "use" and rv["a"].get("o") in ("copy", "move") and not rv["a"]["p"]:
+                l = rv["a"]["l"]
+            else:
+                return l
+        return l
 
     def local(self, l):
         if l in self._seen:
@@ -336,8 +355,10 @@ def run(ctx, config="all"):
                     fk, init, "|".join(fns), sorted(sl.consts), fn_items))
             continue
         if variant in COMPOSITES or fk in COMPOSITES:
-            want = [sorted(w) for w in COMPOSITES.get(variant, COMPOSITES.get(fk))]
-            got = sorted(norm_op(n) for n in names)
+            # compared as SETS of operations, observers (is_zero, ==, <, cmp ...) left out: how often a zero test is
+            # made, and whether it is spelled is_zero() or == ZERO, is not part of what the facade computes
+            want = [sorted(set(w) - OBSERVERS) for w in COMPOSITES.get(variant, COMPOSITES.get(fk))]
+            got = sorted({norm_op(n) for n in names} - OBSERVERS)
             if got in want:
                 rep.ok(key, where, "composite of %s" % got)
             elif fk in REIMPLEMENTABLE and any(prog.bodies[c[2]]["file"].startswith("src/algorithms") or
@@ -388,8 +409,8 @@ def run(ctx, config="all"):
                 nm, frag = a.split(":", 1)
                 if d["name"] == nm and frag in dname:
                     ok = True
-            elif d["name"] == a:
-                ok = True
+            elif d["name"] == a or norm_op(d["name"]) == norm_op(a):
+                ok = True     # op, wrapping_op and op_assign are one operation in ruint (the operators are wrapping)
         # a same-name delegate must be a *different* function computing the same operation:
         if not ok:
             rep.violation(key, where, "%s forwards to %s; the oracle table allows only %s" % (fk, short(dname), allowed))
